@@ -322,6 +322,7 @@ def analyse(res):
                 cur["stop"] = cur["stop"] or a == str(SIGSTOP)
             elif e == "exit":
                 cur["exit"] = int(a)
+                cur["exit_pos"] = pos
                 zexit = int(a)
             else:
                 tx = ztext(ev)
@@ -431,14 +432,16 @@ def offenders(res, base):
                 out.append(("abort-on-harmless:%s" % tag, "%s that must not abort: signal forwarded to %s, exit(%s)" %
                             (SGN.get(ep["sig"]), [f[0] for f in ep["fwd"]], ep["exit"])))
             win = ep["thdwin"]
+            if not (win and win[1] is not None) and did_exit:
+                win = [ep["pos"], ep["exit_pos"]]      # exit without a (complete) forwarding pass
             if win and win[1] is not None:
                 must, may = set(), set()
                 for i, h in enumerate(H):
                     if h["cend_ok"] and h["cend"] < win[1] and (h["res_lock"] is None or h["res_lock"] > win[0]):
                         may.add(i)
-                    if h["upd_lock"] is not None and h["upd_lock"] < win[0] and \
+                    if h["upd_unlock"] is not None and h["upd_unlock"] < win[0] and \
                             (h["res_lock"] is None or h["res_lock"] > win[1]):
-                        canceled_before = any(c["tcwin"][0] < h["upd_lock"] for c in cancels)
+                        canceled_before = any(c["tcwin"][0] < h["upd_unlock"] for c in cancels)
                         if not canceled_before:
                             must.add(i)
                 got = set(f[0] for f in ep["fwd"])
@@ -501,6 +504,10 @@ def offenders(res, base):
                     marked = ts is not None and ts != "-" and i < len(ts) and ts[i] == "5"
                     if marked and (was_reading or (h["res_lock"] is not None and h["res_lock"] < c)):
                         out.append(("cancel-hit-running", "host %d was running or finished when ^Z canceled it" % i))
+                    if marked and h["cbegin"] is not None and h["cbegin"] < c and h["polled"] and \
+                            h["upd_unlock"] is not None and h["upd_unlock"] > c:
+                        out.append(("canceled-host-ran", "host %d was canceled while connecting (state CANCELED, counted in the "
+                                    "message) and its command output was relayed all the same" % i))
                     if marked and h["cbegin"] is not None and h["cbegin"] > c:
                         sig = "canceled-host-connected:%s" % ("created-before-cancel" if h["create"] is not None and h["create"] < c
                                                              else "created-after-cancel")
